@@ -58,6 +58,9 @@ type dirIn struct {
 	NoDropins  bool       `json:"nodropins"`  // the drop-in directory does not exist
 	Root       bool       `json:"root"`       // the harness runs as root (any x bit suffices to exec)
 	RegTimeout int        `json:"regtimeout"` // ms, the registration timeout in force
+	// Restart: after Stop the SAME Adaptation is started again (plan replayed, stopped again);
+	// the second session is observed like the first (obs.round2) and judged by the same rules
+	Restart bool `json:"restart"`
 }
 
 type probeObs struct {
@@ -86,6 +89,7 @@ type dirObs struct {
 	R1     string     `json:"r1"`    // "" or "error": did any relayed request fail
 	R2     string     `json:"r2"`    // unused (kept for old replays)
 	WallMs int64      `json:"wall_ms"`
+	Round2 *dirObs    `json:"round2,omitempty"` // the session after a restart of the same Adaptation
 }
 
 func behaveOf(name string) string {
@@ -419,192 +423,205 @@ func runCase(in *dirIn, base string, ms *masters) (dirObs, error) {
 	if err != nil {
 		return o, err
 	}
-	serr := r.Start()
-	o.Start = "ok"
-	if serr != nil {
-		o.Start = errClass(serr)
-	}
-	req := func(id string) string {
-		ctx, cancel := context.WithTimeout(context.Background(), 60*time.Second)
-		defer cancel()
-		_, err := r.CreateContainer(ctx, &api.CreateContainerRequest{
-			Pod:       &api.PodSandbox{Id: "p0", Name: "p0"},
-			Container: &api.Container{Id: id, PodSandboxId: "p0", Name: id},
-		})
-		if err != nil {
-			return "error"
+	round := func(o dirObs) dirObs {
+		serr := r.Start()
+		o.Start = "ok"
+		if serr != nil {
+			o.Start = errClass(serr)
 		}
-		return ""
-	}
-	readStarts := func() map[string]*startRep {
-		m := map[string]*startRep{}
-		ents, _ := os.ReadDir(rdir)
-		for _, e := range ents {
-			if !strings.HasSuffix(e.Name(), ".start") || strings.HasPrefix(e.Name(), ".") {
-				continue
-			}
-			b, err := os.ReadFile(filepath.Join(rdir, e.Name()))
+		req := func(id string) string {
+			ctx, cancel := context.WithTimeout(context.Background(), 60*time.Second)
+			defer cancel()
+			_, err := r.CreateContainer(ctx, &api.CreateContainerRequest{
+				Pod:       &api.PodSandbox{Id: "p0", Name: "p0"},
+				Container: &api.Container{Id: id, PodSandboxId: "p0", Name: id},
+			})
 			if err != nil {
-				continue
+				return "error"
 			}
-			sr := &startRep{}
-			if json.Unmarshal(b, sr) == nil {
-				m[sr.File] = sr
+			return ""
+		}
+		readStarts := func() map[string]*startRep {
+			m := map[string]*startRep{}
+			ents, _ := os.ReadDir(rdir)
+			for _, e := range ents {
+				if !strings.HasSuffix(e.Name(), ".start") || strings.HasPrefix(e.Name(), ".") {
+					continue
+				}
+				b, err := os.ReadFile(filepath.Join(rdir, e.Name()))
+				if err != nil {
+					continue
+				}
+				sr := &startRep{}
+				if json.Unmarshal(b, sr) == nil {
+					m[sr.File] = sr
+				}
+			}
+			return m
+		}
+		readLog := func() []logLine {
+			var ls []logLine
+			if f, err := os.Open(filepath.Join(rdir, "log")); err == nil {
+				sc := bufio.NewScanner(f)
+				for sc.Scan() {
+					var l logLine
+					if json.Unmarshal(sc.Bytes(), &l) == nil {
+						ls = append(ls, l)
+					}
+				}
+				f.Close()
+			}
+			return ls
+		}
+		if serr == nil {
+			nreq, idled := 0, false
+			for _, st := range in.Plan {
+				switch st {
+				case "r":
+					nreq++
+					if req(fmt.Sprintf("r%d", nreq)) != "" {
+						o.R1 = "error"
+					}
+					// let the probes that die after their first request finish dying
+					deadline := time.Now().Add(5 * time.Second)
+					for time.Now().Before(deadline) {
+						pending := false
+						for f, sr := range readStarts() {
+							if behaveOf(f) == "die" && procState(sr.Pid) == "alive" {
+								pending = true
+							}
+						}
+						if !pending {
+							break
+						}
+						time.Sleep(5 * time.Millisecond)
+					}
+					time.Sleep(20 * time.Millisecond) // the runtime's close notification for the dead connection
+				case "idle":
+					if idled {
+						continue
+					}
+					idled = true
+					// the runtime is idle now: tell the probes that close / exit on their own to do so, wait
+					// until each has, then give the runtime time to notice the closed connections
+					os.WriteFile(filepath.Join(rdir, "idle"), nil, 0o644)
+					deadline := time.Now().Add(10 * time.Second)
+					for time.Now().Before(deadline) {
+						done := map[string]bool{}
+						for _, l := range readLog() {
+							if l.Ev == "idle-closed" || l.Ev == "idle-exit" {
+								done[l.Who] = true
+							}
+						}
+						pending := false
+						for f, sr := range readStarts() {
+							switch behaveOf(f) {
+							case "idleclose":
+								if !done[f] && procState(sr.Pid) == "alive" {
+									pending = true
+								}
+							case "idleexit":
+								if procState(sr.Pid) == "alive" {
+									pending = true
+								}
+							}
+						}
+						if !pending {
+							break
+						}
+						time.Sleep(5 * time.Millisecond)
+					}
+					time.Sleep(150 * time.Millisecond)
+				}
 			}
 		}
-		return m
-	}
-	readLog := func() []logLine {
-		var ls []logLine
+		r.Stop()
+		starts := readStarts()
+		// process table: dropped plugins are killed and reaped by a goroutine of the runtime; give it
+		// time (up to 5 s while anything is still running, 1.5 s for exited-but-unreaped children)
+		known := map[int]bool{}
+		t1 := time.Now()
+		for {
+			alive, zombie := false, false
+			for _, sr := range starts {
+				known[sr.Pid] = true
+				switch procState(sr.Pid) {
+				case "alive":
+					alive = true
+				case "zombie":
+					zombie = true
+				}
+			}
+			el := time.Since(t1)
+			if (!alive && !zombie) || (!alive && el > 1500*time.Millisecond) || el > 5*time.Second {
+				break
+			}
+			time.Sleep(10 * time.Millisecond)
+		}
+		o.Stray = strays(pdir, known)
+		for _, sr := range starts {
+			p := probeObs{File: sr.File, Env: sr.Env, Argv: []string{}, FDs: []string{}, After: procState(sr.Pid)}
+			if p.Env == nil {
+				p.Env = []string{}
+			}
+			sort.Strings(p.Env)
+			for _, a := range sr.Argv {
+				p.Argv = append(p.Argv, filepath.Base(a))
+			}
+			for _, fd := range sr.FDs {
+				p.FDs = append(p.FDs, fmt.Sprintf("%d:%s", fd.FD, fdKind(fd.Link)))
+			}
+			if b, err := os.ReadFile(filepath.Join(rdir, sr.File+".configure")); err == nil {
+				var c struct {
+					Config         string `json:"config"`
+					RuntimeName    string `json:"runtime_name"`
+					RuntimeVersion string `json:"runtime_version"`
+				}
+				if json.Unmarshal(b, &c) == nil {
+					p.Configured, p.Config, p.Runtime = true, c.Config, c.RuntimeName+"/"+c.RuntimeVersion
+				}
+			}
+			o.Probes = append(o.Probes, p)
+		}
+		// whatever the runtime left behind has been recorded; do not leave it behind ourselves
+		for _, sr := range starts {
+			if st := procState(sr.Pid); st == "alive" || st == "zombie" {
+				syscall.Kill(sr.Pid, syscall.SIGKILL)
+				var ws syscall.WaitStatus
+				syscall.Wait4(sr.Pid, &ws, 0, nil)
+			}
+		}
+		sort.Slice(o.Probes, func(i, j int) bool { return o.Probes[i].File < o.Probes[j].File })
 		if f, err := os.Open(filepath.Join(rdir, "log")); err == nil {
 			sc := bufio.NewScanner(f)
 			for sc.Scan() {
 				var l logLine
-				if json.Unmarshal(sc.Bytes(), &l) == nil {
-					ls = append(ls, l)
+				if json.Unmarshal(sc.Bytes(), &l) != nil {
+					continue
+				}
+				switch l.Ev {
+				case "start", "configure", "synchronize", "create":
+					o.Log = append(o.Log, l)
+				default:
+					o.Noise = append(o.Noise, l.Who+":"+l.Ev)
 				}
 			}
 			f.Close()
 		}
-		return ls
+		sort.Strings(o.Noise)
+		o.WallMs = time.Since(t0).Milliseconds()
+		return o
 	}
-	if serr == nil {
-		nreq, idled := 0, false
-		for _, st := range in.Plan {
-			switch st {
-			case "r":
-				nreq++
-				if req(fmt.Sprintf("r%d", nreq)) != "" {
-					o.R1 = "error"
-				}
-				// let the probes that die after their first request finish dying
-				deadline := time.Now().Add(5 * time.Second)
-				for time.Now().Before(deadline) {
-					pending := false
-					for f, sr := range readStarts() {
-						if behaveOf(f) == "die" && procState(sr.Pid) == "alive" {
-							pending = true
-						}
-					}
-					if !pending {
-						break
-					}
-					time.Sleep(5 * time.Millisecond)
-				}
-				time.Sleep(20 * time.Millisecond) // the runtime's close notification for the dead connection
-			case "idle":
-				if idled {
-					continue
-				}
-				idled = true
-				// the runtime is idle now: tell the probes that close / exit on their own to do so, wait
-				// until each has, then give the runtime time to notice the closed connections
-				os.WriteFile(filepath.Join(rdir, "idle"), nil, 0o644)
-				deadline := time.Now().Add(10 * time.Second)
-				for time.Now().Before(deadline) {
-					done := map[string]bool{}
-					for _, l := range readLog() {
-						if l.Ev == "idle-closed" || l.Ev == "idle-exit" {
-							done[l.Who] = true
-						}
-					}
-					pending := false
-					for f, sr := range readStarts() {
-						switch behaveOf(f) {
-						case "idleclose":
-							if !done[f] && procState(sr.Pid) == "alive" {
-								pending = true
-							}
-						case "idleexit":
-							if procState(sr.Pid) == "alive" {
-								pending = true
-							}
-						}
-					}
-					if !pending {
-						break
-					}
-					time.Sleep(5 * time.Millisecond)
-				}
-				time.Sleep(150 * time.Millisecond)
-			}
+	o = round(o)
+	if in.Restart && o.Start == "ok" {
+		// second session of the same Adaptation: fresh reports, same directory and drop-ins
+		ents, _ := os.ReadDir(rdir)
+		for _, e := range ents {
+			os.Remove(filepath.Join(rdir, e.Name()))
 		}
+		o2 := round(dirObs{Log: []logLine{}, Noise: []string{}, Probes: []probeObs{}})
+		o.Round2 = &o2
 	}
-	r.Stop()
-	starts := readStarts()
-	// process table: dropped plugins are killed and reaped by a goroutine of the runtime; give it
-	// time (up to 5 s while anything is still running, 1.5 s for exited-but-unreaped children)
-	known := map[int]bool{}
-	t1 := time.Now()
-	for {
-		alive, zombie := false, false
-		for _, sr := range starts {
-			known[sr.Pid] = true
-			switch procState(sr.Pid) {
-			case "alive":
-				alive = true
-			case "zombie":
-				zombie = true
-			}
-		}
-		el := time.Since(t1)
-		if (!alive && !zombie) || (!alive && el > 1500*time.Millisecond) || el > 5*time.Second {
-			break
-		}
-		time.Sleep(10 * time.Millisecond)
-	}
-	o.Stray = strays(pdir, known)
-	for _, sr := range starts {
-		p := probeObs{File: sr.File, Env: sr.Env, Argv: []string{}, FDs: []string{}, After: procState(sr.Pid)}
-		if p.Env == nil {
-			p.Env = []string{}
-		}
-		sort.Strings(p.Env)
-		for _, a := range sr.Argv {
-			p.Argv = append(p.Argv, filepath.Base(a))
-		}
-		for _, fd := range sr.FDs {
-			p.FDs = append(p.FDs, fmt.Sprintf("%d:%s", fd.FD, fdKind(fd.Link)))
-		}
-		if b, err := os.ReadFile(filepath.Join(rdir, sr.File+".configure")); err == nil {
-			var c struct {
-				Config         string `json:"config"`
-				RuntimeName    string `json:"runtime_name"`
-				RuntimeVersion string `json:"runtime_version"`
-			}
-			if json.Unmarshal(b, &c) == nil {
-				p.Configured, p.Config, p.Runtime = true, c.Config, c.RuntimeName+"/"+c.RuntimeVersion
-			}
-		}
-		o.Probes = append(o.Probes, p)
-	}
-	// whatever the runtime left behind has been recorded; do not leave it behind ourselves
-	for _, sr := range starts {
-		if st := procState(sr.Pid); st == "alive" || st == "zombie" {
-			syscall.Kill(sr.Pid, syscall.SIGKILL)
-			var ws syscall.WaitStatus
-			syscall.Wait4(sr.Pid, &ws, 0, nil)
-		}
-	}
-	sort.Slice(o.Probes, func(i, j int) bool { return o.Probes[i].File < o.Probes[j].File })
-	if f, err := os.Open(filepath.Join(rdir, "log")); err == nil {
-		sc := bufio.NewScanner(f)
-		for sc.Scan() {
-			var l logLine
-			if json.Unmarshal(sc.Bytes(), &l) != nil {
-				continue
-			}
-			switch l.Ev {
-			case "start", "configure", "synchronize", "create":
-				o.Log = append(o.Log, l)
-			default:
-				o.Noise = append(o.Noise, l.Who+":"+l.Ev)
-			}
-		}
-		f.Close()
-	}
-	sort.Strings(o.Noise)
-	o.WallMs = time.Since(t0).Milliseconds()
 	return o, nil
 }
 
